@@ -4,9 +4,11 @@
 package c05
 
 import (
+	"bytes"
 	"fmt"
 	"math/rand"
 	"strings"
+	"time"
 
 	"github.com/google/pprof/profile"
 	"github.com/google/pprof/verif/checks/c04"
@@ -15,6 +17,7 @@ import (
 	"github.com/google/pprof/verif/internal/harness"
 	"github.com/google/pprof/verif/internal/parse"
 	"github.com/google/pprof/verif/internal/ref"
+	"github.com/google/pprof/verif/internal/sess"
 )
 
 type trimOpt struct {
@@ -500,14 +503,85 @@ func checkTrim(c *harness.Ctx, p *profile.Profile, o c04.Opt, w *world, t trimOp
 	return ""
 }
 
+// interactive "top N" / "top N -cum": the node count given on the command line trims exactly like
+// -nodecount=N on the command line (whose numbers part trim checks against the reference)
+func runInteractive(c *harness.Ctx) harness.Result {
+	r := c.Rng
+	var p *profile.Profile
+	for {
+		p = c04.GenReportProfile(r)
+		if usableNames(p) {
+			break
+		}
+	}
+	n := 1 + r.Intn(6)
+	idx := p.SampleType[r.Intn(len(p.SampleType))].Type
+	lines := []string{"nodefraction=0", "sample_index=" + idx, fmt.Sprintf("top %d", n), fmt.Sprintf("top %d -cum", n), "top"}
+	res := harness.Result{NonTrivial: len(p.Sample) >= 2, Sig: gen.Shape(p) + fmt.Sprint(n, idx), Sample: map[string]any{"lines": lines}}
+	var buf bytes.Buffer
+	if err := p.WriteUncompressed(&buf); err != nil {
+		return harness.Result{Verdict: harness.Inconclusive, Detail: err.Error()}
+	}
+	sr, err := sess.Run(sess.Spec{Profile: buf.Bytes(), Mode: "interactive", Lines: lines, Dir: c.Tmp + "/s"}, 2*time.Minute)
+	if err != nil {
+		return harness.Result{Verdict: harness.Inconclusive, Detail: "session: " + err.Error()}
+	}
+	if len(sr.Segments) < len(lines) {
+		return harness.Result{Verdict: harness.Inconclusive, Detail: fmt.Sprintf("session produced %d segments", len(sr.Segments))}
+	}
+	c.Stat("interactive_sessions", 1)
+	cli := func(nodecount int, cum bool) (string, string) {
+		b := map[string]bool{"top": true, "functions": true}
+		if cum {
+			b["cum"] = true
+		} else {
+			b["flat"] = true
+		}
+		out, ui, rr := drv.Report(map[string]*profile.Profile{"p": p}, []string{"p"}, b, map[string]string{"sample_index": idx}, map[string]int{"nodecount": nodecount}, map[string]float64{"nodefraction": 0}, nil)
+		if rr.Panic != "" || rr.Err != nil {
+			return "", fmt.Sprintf("%v %v %v", rr.Err, rr.Panic, ui.Errs)
+		}
+		return out, ""
+	}
+	body := func(s string) string { // the table from the legend on (the lines above name the source)
+		if i := strings.Index(s, "Showing nodes accounting for"); i >= 0 {
+			return strings.TrimSpace(s[i:])
+		}
+		return strings.TrimSpace(s)
+	}
+	text := func(seg sess.Segment) string {
+		if strings.TrimSpace(seg.Stdout) != "" {
+			return seg.Stdout
+		}
+		return strings.Join(seg.UIOut, "\n")
+	}
+	for k, spec := range []struct {
+		n   int
+		cum bool
+	}{{n, false}, {n, true}, {10, false}} {
+		want, e := cli(spec.n, spec.cum)
+		if e != "" {
+			return harness.Violation("pprof -top -nodecount=%d failed: %s", spec.n, e)
+		}
+		got := text(sr.Segments[2+k])
+		if body(got) != body(want) {
+			res.Verdict = harness.Violated
+			res.Detail = fmt.Sprintf("interactive %q differs from pprof -top -nodecount=%d cum=%v\n--- interactive\n%s\n--- command line\n%s\nprofile:\n%s", lines[2+k], spec.n, spec.cum, harness.Trunc(body(got), 1500), harness.Trunc(body(want), 1500), harness.Trunc(p.String(), 2000))
+			return res
+		}
+		c.Stat("interactive_tops_compared", 1)
+	}
+	return res
+}
+
 func init() {
 	harness.Register(&harness.Check{
 		ID:    "C05",
 		Level: "exploration",
-		Rule: "report-class profiles (as C04) x granularity x noinlines x sample_index x 4 trim points: nodecount in {0,1,2,3,5,n-1,n,n+1}, nodefraction placed just below/at/above an actual |cum|/sum(flat) ratio (or 0, .005, .3, 1, 2), edgefraction around an actual edge ratio, flat/cum sort; rendered as -top, -tree, -dot and -dot -call_tree through the real driver. " +
+		Rule: "report-class profiles (as C04) x granularity x noinlines x sample_index x 4 trim points: nodecount in {0,1,2,3,5,n-1,n,n+1}, nodefraction placed just below/at/above an actual |cum|/sum(flat) ratio (or 0, .005, .3, 1, 2), edgefraction around an actual edge ratio, flat/cum sort; rendered as -top, -tree, -dot and -dot -call_tree through the real driver; part interactive: 'top N', 'top N -cum' and 'top' typed into a fresh interactive session must print the table pprof -top -nodecount=N prints (10 for the bare command). " +
 			"oracle: shown entries carry their untrimmed flat/cum; text reports show exactly min(N, #{|cum|>=cutoff}) entries, none below the cutoff, no hidden eligible entry outranking a shown one, rows ordered by the sort magnitude; legends (accounting for, Dropped K nodes, top N of M) match; every edge joins shown entries; solid edges carry the untrimmed direct adjacency weight, dotted edges the adjacency over the shown entries with at least one bypassing sample; -tree completeness at the edge cutoff; call trees: <=1 parent, edge weight = child's cum, every node matches a distinct untrimmed tree node. non-trivial = at least 2 untrimmed entries; distinct = profile shape",
 		Assumptions:   []string{"node cutoff = |trunc(sum of untrimmed flat x nodefraction)|, edge cutoff likewise (documented rule)", "cases in which two untrimmed entries share a printable name are skipped (entries are identified by name in the output)", "graphical reports pick survivors heuristically: only invariance, cutoff and nodecount bound are checked for -dot"},
-		Parts:         []harness.Part{{Name: "trim", Quick: 8000, Thor: 200000, Run: runCase}},
+		Parts:         []harness.Part{{Name: "trim", Quick: 8000, Thor: 200000, Run: runCase}, {Name: "interactive", Quick: 150, Thor: 4000, Run: runInteractive}},
 		MinNonTrivial: func(string) int { return 300 },
 		Finish: func(tier string, st map[string]int64) string {
 			if st["residual_edges_seen"] == 0 {
